@@ -1015,6 +1015,49 @@ def flatten_function(index, fi, exclude=()):
     return clone
 
 
+# ---- yield from a comprehension -------------------------------------------------------------------------------------------------
+def desugar_yield_from(index):
+    """`yield from (E for T in S if C)` (statement; generator expression or list comprehension over pure parts) is
+    `for T in S: if C: yield E`: the same values in the same order.  The comprehension's variables are its own, so the rewrite
+    is only made when none of them is otherwise used in the function."""
+    done = {}
+
+    def walk_block(stmts, fn, site):
+        for i, s in enumerate(list(stmts)):
+            for field in ("body", "orelse", "finalbody"):
+                blk = getattr(s, field, None)
+                if isinstance(blk, list) and blk and isinstance(blk[0], ast.stmt) and not isinstance(s, (ast.FunctionDef, ast.AsyncFunctionDef, ast.ClassDef)):
+                    walk_block(blk, fn, site)
+            if not (isinstance(s, ast.Expr) and isinstance(s.value, ast.YieldFrom) and isinstance(s.value.value, (ast.GeneratorExp, ast.ListComp))):
+                continue
+            comp = s.value.value
+            if any(g.is_async for g in comp.generators):
+                continue
+            bound = {n.id for g in comp.generators for n in ast.walk(g.target) if isinstance(n, ast.Name)}
+            inside = {id(n) for n in ast.walk(comp)}
+            if any(isinstance(n, ast.Name) and n.id in bound and id(n) not in inside for n in ast.walk(fn)):
+                continue
+            if any(isinstance(n, (ast.NamedExpr, ast.Yield, ast.YieldFrom, ast.Await)) for n in ast.walk(comp)):
+                continue
+            body = [ast.Expr(value=ast.Yield(value=comp.elt))]
+            for g in reversed(comp.generators):
+                for cond in reversed(g.ifs):
+                    body = [ast.If(test=cond, body=body, orelse=[])]
+                body = [ast.For(target=g.target, iter=g.iter, body=body, orelse=[], type_comment=None)]
+            new = body[0]
+            ast.copy_location(new, s)
+            ast.fix_missing_locations(new)
+            for n in ast.walk(new):
+                if not hasattr(n, "lineno"):
+                    n.lineno = s.lineno
+            stmts[stmts.index(s)] = new
+            done[site] = done.get(site, 0) + 1
+
+    for f in index.all_functions():
+        walk_block(f.node.body, f.node, f.site)
+    return done
+
+
 # ---- match / case ------------------------------------------------------------------------------------------------------------
 def desugar_matches(index):
     """`match subject:` with value patterns (constants, dotted names such as enum members), alternatives of those, class
@@ -1419,4 +1462,87 @@ def tuples_for_named_records(index):
                     return n
             Fld().visit(f.node)
             ast.fix_missing_locations(f.node)
+    return done
+
+
+# ---- dictionaries of keyword arguments --------------------------------------------------------------------------------------------
+def expand_kwargs_dicts(index):
+    """`dict(a=x, b=y)` is `{"a": x, "b": y}`; a local bound once to such a display (constant string keys) and used only as
+    `**name` is written out as the keyword arguments it stands for: f(**{"a": x}) becomes f(a=x).  The values are evaluated
+    where the display is written, so the expansion requires that nothing between the display and the call can change them:
+    plain reads only (names, attribute chains, constants, arithmetic of those) and no rebinding of those names in between."""
+    done = {}
+
+    class DictCall(ast.NodeTransformer):
+        def visit_Call(self, n):
+            self.generic_visit(n)
+            if isinstance(n.func, ast.Name) and n.func.id == "dict" and not n.args and n.keywords and all(k.arg is not None for k in n.keywords):
+                return ast.copy_location(ast.Dict(keys=[ast.Constant(value=k.arg) for k in n.keywords], values=[k.value for k in n.keywords]), n)
+            return n
+
+    def plain(e):
+        return not any(isinstance(x, (ast.Call, ast.Lambda, ast.Yield, ast.Await, ast.NamedExpr, ast.ListComp, ast.GeneratorExp, ast.DictComp, ast.SetComp))
+                       and not (isinstance(x, ast.Call) and ast.unparse(x.func) in _PURE_CALLS) for x in ast.walk(e))
+
+    class Splice(ast.NodeTransformer):
+        def __init__(self, table):
+            self.table = table
+
+        def visit_Call(self, n):
+            self.generic_visit(n)
+            kws = []
+            for k in n.keywords:
+                if k.arg is None and isinstance(k.value, ast.Dict) and k.value.keys and \
+                        all(isinstance(x, ast.Constant) and isinstance(x.value, str) and x.value.isidentifier() for x in k.value.keys):
+                    kws.extend(ast.keyword(arg=x.value, value=v) for x, v in zip(k.value.keys, k.value.values))
+                elif k.arg is None and isinstance(k.value, ast.Name) and k.value.id in self.table:
+                    import copy
+                    dv = self.table[k.value.id]
+                    kws.extend(ast.keyword(arg=x.value, value=copy.deepcopy(v)) for x, v in zip(dv.keys, dv.values))
+                else:
+                    kws.append(k)
+            n.keywords = kws
+            return n
+
+    for m in index.modules.values():
+        funcs = list(m.functions.values()) + [f for c in m.all_classes() for fs in c.methods.values() for f in fs]
+        for f in funcs:
+            DictCall().visit(f.node)
+            par = {}
+            for n in ast.walk(f.node):
+                for ch in ast.iter_child_nodes(n):
+                    par[ch] = n
+            table = {}
+            for n in ast.walk(f.node):
+                if isinstance(n, ast.Assign) and len(n.targets) == 1 and isinstance(n.targets[0], ast.Name) and isinstance(n.value, ast.Dict) and n.value.keys and \
+                        all(isinstance(x, ast.Constant) and isinstance(x.value, str) and x.value.isidentifier() for x in n.value.keys) and \
+                        all(plain(v) for v in n.value.values):
+                    nm = n.targets[0].id
+                    uses = [x for x in ast.walk(f.node) if isinstance(x, ast.Name) and x.id == nm]
+                    stores = [x for x in uses if isinstance(x.ctx, ast.Store)]
+                    loads = [x for x in uses if isinstance(x.ctx, ast.Load)]
+                    if len(stores) != 1 or not loads or not all(isinstance(par.get(x), ast.keyword) and par[x].arg is None for x in loads):
+                        continue
+                    # names read by the values must not be rebound after the display (up to the last use)
+                    read = {x.id for v in n.value.values for x in ast.walk(v) if isinstance(x, ast.Name)}
+                    last = max(x.lineno for x in loads)
+                    if any(isinstance(x, ast.Name) and isinstance(x.ctx, ast.Store) and x.id in read and n.lineno < x.lineno <= last for x in ast.walk(f.node)):
+                        continue
+                    table[nm] = n.value
+            before = ast.dump(f.node)
+            Splice(table).visit(f.node)
+            if table:
+                # the displays themselves are no longer needed
+                def prune(stmts):
+                    stmts[:] = [s for s in stmts if not (isinstance(s, ast.Assign) and len(s.targets) == 1 and isinstance(s.targets[0], ast.Name) and
+                                                         s.targets[0].id in table and s.value is table[s.targets[0].id])]
+                    for s in stmts:
+                        for field in ("body", "orelse", "finalbody"):
+                            blk = getattr(s, field, None)
+                            if isinstance(blk, list) and blk and isinstance(blk[0], ast.stmt):
+                                prune(blk)
+                prune(f.node.body)
+            if ast.dump(f.node) != before:
+                done[f.site] = sorted(table) or ["**{...}"]
+                ast.fix_missing_locations(f.node)
     return done
